@@ -42,6 +42,26 @@
         final(self).metrics == old(self).metrics,
 //@ entry
         broadcast use serial_val_injective, time_val_injective;
+//@ fn CaCert::ca_repository
+//@ spec
+    ensures res == &self.ca_repository,
+//@ fn CaCert::rpki_manifest
+//@ spec
+    ensures res == &self.rpki_manifest,
+//@ fn StoredManifest::new
+//@ spec
+    ensures
+        // the cached (number, thisUpdate) pair is the manifest's own
+        res.manifest_number == manifest.number_spec(), res.this_update == manifest.this_update_spec(),
+        res.manifest == manifest_bytes, res.crl_uri == crl_uri, res.crl == crl,
+//@ fn RunFailed::fatal
+//@ spec
+    ensures res == (RunFailed { fatal: true }),
+//@ fn From<Failed> for RunFailed::from
+//@ params
+_failed: Failed
+//@ fn PubPoint::process_collected
+//@ closureopaque 1 opaque_objects_closure()
 //@ global
 // Written from the property statement: manifest number strictly greater AND thisUpdate strictly later.
 spec fn strictly_newer(c: &ValidPointManifest, s: StoredManifest) -> bool {
@@ -62,4 +82,10 @@ spec fn stored_inconsistent(s: StoredManifest, strict: bool) -> bool {
 // Precondition of StoredPoint::update at its call site in process_collected.
 spec fn update_allowed(c: &ValidPointManifest, stored: &StoredPoint) -> bool {
     stored.manifest matches Some(s) ==> strictly_newer(c, s)
+}
+
+// `?` converts Failed into RunFailed through the extracted From impl; its spec-level meaning
+impl vstd::std_specs::convert::FromSpecImpl<Failed> for RunFailed {
+    closed spec fn obeys_from_spec() -> bool { true }
+    closed spec fn from_spec(v: Failed) -> RunFailed { RunFailed { fatal: true } }
 }
